@@ -112,14 +112,14 @@ def values_of(a):
     return a.f[F_VALUES].f[0].t
 
 
-def run_history(ctx, m, config, ops, dts):
+def run_history(ctx, m, config, ops, dts, bound=True):
     """executes a concrete operation shape with symbolic advance amounts; returns the per-step records"""
     a = ctx.build(m, config)
     aref = m.alloc(a)
     recs = [('new', snapshot(m, aref))]
     for i, op in enumerate(ops):
         if op[0] == 'adv':
-            m.assume(z3.And(fin(dts[i]), z3.fpGEQ(dts[i], ZERO), z3.fpLT(dts[i], fpv32(2.0 ** 40))))
+            m.assume(z3.And(fin(dts[i]), z3.fpGEQ(dts[i], ZERO), z3.fpLT(dts[i], fpv32(2.0 ** 40)) if bound else z3.BoolVal(True)))
             m.call_fn(ctx.anim['advance'], [aref, Sc('f32', dts[i])])
         else:
             m.call_fn(ctx.anim['set_state'], [aref, m.alloc(ctx.state(op[1]))])
